@@ -53,6 +53,12 @@ def own_object(db, *others):
     return ' and '.join(f'{t} is not {o}' for o in (f"c10c_raw({db}, 'userRandomNumberGenerators')", 'c10c_native_ref()') + others)
 
 
+def reserved(db):
+    """invariant of Database established by set_random_number_generators (proved below): no user-defined type uses a native name,
+    so a declared type is registered in at most one of the two tables"""
+    return (f"forall(lambda x: not (c10c_in(x, c10c_native_ref()) and c10c_in(x, c10c_raw({db}, 'userRandomNumberGenerators'))), ty='str')")
+
+
 TYPE_Q = 'draw_types[names[q]]'
 BAD_Q = f'({gen_of(TYPE_Q)} is None or not same({series_of(TYPE_Q)}.shape, ({N}, number_of_draws)))'
 
@@ -98,7 +104,8 @@ contract(D + 'generate_draws', 'C10', self_class='Database', label='Database.gen
          types={'draw_types': 'dict[str, str]', 'names': 'list[str]', 'number_of_draws': 'int'},
          returns='Any',
          requires={'names_typed': 'forall(lambda q: names[q] in draw_types, 0, len(names))',
-                   'types_record_is_its_own_object': own_object('self', 'draw_types', 'names')},
+                   'types_record_is_its_own_object': own_object('self', 'draw_types', 'names'),
+                   'reserved_names_respected': reserved('self')},
          raises={'BiogemeError': f'exists(lambda q: {BAD_Q}, 0, len(names))'},
          modifies=['self.number_of_draws', 'self.theDraws', 'dict(self.typesOfDraws)'],
          invariants={1: {'clauses': {
@@ -119,6 +126,40 @@ contract(D + 'generate_draws', 'C10', self_class='Database', label='Database.gen
          replay=REPLAY_GENERATE,
          note='the third axis of the draws table follows `names`; every name gets the series of the generator of its own type')
 
+
+# ------------------------------------------------------------------------------------------------------------------
+# user-defined generators never take a native (reserved) name
+contract('biogeme.native_draws.convert_random_generator_tuple', 'C10', verify=False, pure=True, returns='RandomNumberGeneratorTuple',
+         ensures={'t': 'True'},
+         note='ASSUMED: conversion of one user record (a RandomNumberGeneratorTuple or a (function, description) tuple) to a '
+              'RandomNumberGeneratorTuple: deterministic, effect free; its TypeError for other values is not modelled')
+contract(D + 'set_random_number_generators', 'C10', types={'rng': 'dict[str, Any]'},
+         raises={'ValueError': "exists(lambda x: x in c10c_native_table() and x in rng, ty='str')"},
+         modifies=['self.userRandomNumberGenerators'],
+         invariants={1: {'clauses': {'none_so_far': 'forall(lambda q: keys_of(c10c_native_table())[q] not in rng, 0, _k)'}}},
+         ensures={'same_names': "forall(lambda x: (x in self.userRandomNumberGenerators) == (x in rng), ty='str')",
+                  'reserved_names_respected': "forall(lambda x: not (x in c10c_native_table() and x in self.userRandomNumberGenerators), ty='str')",
+                  'new_object': 'c10c_new_object(self.userRandomNumberGenerators)'},
+         replay=r"""
+import warnings; warnings.simplefilter('ignore')
+import numpy as np, pandas as pd
+from biogeme.database import Database
+from biogeme.native_draws import RandomNumberGeneratorTuple, native_random_number_generators as NT
+g = RandomNumberGeneratorTuple(lambda n, r: np.zeros((n, r)), 'zeros')
+bad = []
+for key in list(NT)[:21]:
+    db = Database('d', pd.DataFrame({'x': [1.0]}))
+    try:
+        db.set_random_number_generators({'MINE': g, key: g}); bad.append(('accepted reserved name', key))
+    except ValueError:
+        pass
+    if set(db.userRandomNumberGenerators) & set(NT): bad.append(('stored reserved name', key))
+db = Database('d', pd.DataFrame({'x': [1.0]}))
+db.set_random_number_generators({'MINE': g, 'OLD': (lambda n, r: np.ones((n, r)), 'ones')})
+if set(db.userRandomNumberGenerators) != {'MINE', 'OLD'}: bad.append(('names', list(db.userRandomNumberGenerators)))
+violated = bool(bad)
+detail = f'set_random_number_generators: {bad[:3]}'
+""")
 
 # ------------------------------------------------------------------------------------------------------------------
 # IdManager.draw_types: name -> declared type
@@ -166,7 +207,8 @@ contract('biogeme.biogeme.BIOGEME._generate_draws', 'C10', types={'number_of_dra
              # invariant of ElementsTuple (post of expressions_names_indices, proved): every listed name is a key
              'draw_names_are_keys': f'forall(lambda q: {IM}.draws.names[q] in {IM}.draws.expressions, 0, len({IM}.draws.names))',
              # invariant of Database: the record of types is an object of its own
-             'types_record_is_its_own_object': own_object(DB, f'{IM}.draws.names', f"c10c_raw({IM}.draws, 'expressions')")},
+             'types_record_is_its_own_object': own_object(DB, f'{IM}.draws.names', f"c10c_raw({IM}.draws, 'expressions')"),
+             'reserved_names_respected': reserved(DB)},
          raises={'BiogemeError': f'{IM}.requires_draws and exists(lambda q: {BAD_B}, 0, len({IM}.draws.names))'},
          modifies=['self.monte_carlo', f'{DB}.number_of_draws', f'{DB}.theDraws', f'dict({DB}.typesOfDraws)'],
          ensures={
